@@ -54,11 +54,16 @@ func zoo() jx.Obj {
 			"MutArrA":    jx.Obj{"type": "array", "items": ref("MutArrB")},
 			"MutArrB":    jx.Obj{"type": "object", "additionalProperties": ref("MutArrA")},
 			"ArrOfArrSelf": jx.Obj{"type": "array", "items": ref("ArrSelf")},
+			// two containers closing two different cycles through each other
+			"Ping": jx.Obj{"type": jx.Arr{"object", "array"}, "additionalProperties": ref("Ping"), "items": ref("Pong")},
+			"Pong": jx.Obj{"type": jx.Arr{"object", "array"}, "additionalProperties": ref("Pong"), "items": ref("Ping")},
+			"Tick": jx.Obj{"type": "object", "anyOf": jx.Arr{ref("Tock"), ref("Tick")}, "additionalProperties": ref("Tock")},
+			"Tock": jx.Obj{"type": "object", "anyOf": jx.Arr{ref("Tick"), ref("Tock")}, "additionalProperties": ref("Tick")},
 		}}
 }
 
 var zooNames = []string{"Str", "Date", "Enum", "Empty", "EmptyObj", "Obj", "ObjX", "Base", "All", "MapS", "MapAny", "MapO", "ArrS", "ArrO", "ArrNoItems",
-	"Tup", "TupX", "Chain", "Chain2", "Node", "NodeList", "MutA", "MutB", "ArrSelf", "MapSelf", "ArrMapSelf", "MutArrA", "MutArrB", "ArrOfArrSelf"}
+	"Tup", "TupX", "Chain", "Chain2", "Node", "NodeList", "MutA", "MutB", "ArrSelf", "MapSelf", "ArrMapSelf", "MutArrA", "MutArrB", "ArrOfArrSelf", "Ping", "Pong", "Tick", "Tock"}
 
 var sysSchemasOnce sync.Once
 var sysSchemas []jx.Obj
